@@ -139,6 +139,9 @@ fn run_hist(ctx: &mut Ctx, cap: usize, queue: bool, ops: &[Op]) {
     let kind = if queue { "Queue" } else { "Stack" };
     for (k, op) in ops.iter().enumerate() {
         let before = h.model.clone();
+        if k % 20000 == 19999 {
+            ctx.rec.case_marker(k as u64, "long buffer history in progress");
+        }
         let r = guarded(|| h.apply(*op));
         ctx.rec.count("ops", 1);
         match r {
@@ -241,7 +244,7 @@ pub fn run(ctx: &mut Ctx) {
         return;
     }
     let mut case: u64 = 0;
-    let k = ctx.n(6, 8);
+    let k = ctx.n(7, 9);
     let mut space = 0u64;
     for cap in 1..=5usize {
         for queue in [true, false] {
@@ -259,9 +262,7 @@ pub fn run(ctx: &mut Ctx) {
                         h.push(OPS[(c % 4) as usize]);
                         c /= 4;
                     }
-                    if case % 128 == 0 {
-                        ctx.rec.case_marker(case, "exhaustive buffer history");
-                    }
+                    ctx.rec.case_marker_throttled(case, "exhaustive buffer history", 128);
                     run_hist(ctx, cap, queue, &h);
                     if code == total / 2 && len == k && cap == 2 {
                         ctx.rec.sample("exhaustive-history", &format!("capacity {} {} : {:?}", cap, if queue { "queue" } else { "stack" }, h));
@@ -271,7 +272,7 @@ pub fn run(ctx: &mut Ctx) {
         }
     }
     ctx.rec.note("exhaustive_space", &space.to_string());
-    let nr = ctx.n(200, 4000);
+    let nr = ctx.n(600, 8000);
     for j in 0..nr as u64 {
         case += 1;
         if !ctx.mine(case) {
